@@ -197,8 +197,22 @@ func genFault(r *kit.Rand, w *world, ctrl string) *fault {
 		f.Site = pick(r, nodeSites...)
 	case w.Claim != nil && w.Claim.Del != nil:
 		f.Site = pick(r, finSites...)
+		var live []int64 // nodes the finalize will have to delete
+		if w.Claim.Reg && w.Claim.Pid {
+			for _, n := range w.Nodes {
+				if !n.Del {
+					live = append(live, n.ID)
+				}
+			}
+		}
+		if len(live) > 0 && r.Chance(50, 100) {
+			f.Site = "SDelNode"
+		}
 		if f.Site == "SDelNode" {
 			f.Arg = int64(r.Intn(2))
+			if len(live) > 0 {
+				f.Arg = pick(r, live...)
+			}
 		}
 	default:
 		f.Site = pick(r, launchSites...)
